@@ -8,7 +8,8 @@ version was named.
 """
 import ast
 
-from ..astutil import call_simple_name, guard_chain, short
+from ..astutil import call_simple_name, guard_chain, returns_of, short
+from ..cfg import ReachingDefs, cfg_of
 from ..callgraph import CHA, EXACT, get_callgraph
 from ..forward import flow_of
 from ..loader import AnalysisError, FunctionInfo, body_walk, norm
@@ -207,13 +208,44 @@ def rule_forward(ctx):
                 pr = flow_of(fi).prov(e)
                 found = repr(pr)
                 kind, nm = src.split(":")
-                if kind == "param" and nm in pr.params:
+                # ... and from NOTHING else: `version or self.version`, `version or '2.1'` make a version nobody named at this
+                # call the one in force (a store built with version=V then judges later, version-less additions by V)
+                pure = (not pr.calls and not pr.other and not [c_ for c_ in pr.consts if c_ is not None]) or fi.id in DETECTOR_SITES
+                if kind == "param" and nm in pr.params and pure and not pr.selfattrs and (pr.params <= {nm} or fi.id in DETECTOR_SITES):
                     ok_any = True
-                if kind == "selfattr" and nm in pr.selfattrs:
+                if kind == "selfattr" and nm in pr.selfattrs and pure and not pr.params and pr.selfattrs <= {nm}:
                     ok_any = True
             run.check(ok_any, R, c, "the requested spec version is not passed on to %s: the content is interpreted by detection or "
                       "the default instead of the named version" % callee, file=fi.module.relpath, line=call.lineno,
                       function=fi.qualname, expected="version argument derived from %s" % src, found=found)
+    # parse(): whatever it returns was produced by dict_to_stix2 under the version in force -- also for input that already is a
+    # library object (parse(obj, version=V) re-reads the object's content under V); an early `return data` ignores the version
+    pf = prog.func("stix2.parsing::parse")
+    gp = cfg_of(pf)
+    rets_p = [r for r in returns_of(pf)]
+    okp = bool(rets_p) and all(flow_of(pf).prov(r.value).calls & {"dict_to_stix2"} for r in rets_p if r.value is not None) \
+        and all(r.value is not None for r in rets_p)
+    run.check(okp, R, key(pf.module.relpath, pf.qualname, "every-answer-through-dict_to_stix2"),
+              "parse() can answer without passing the content through dict_to_stix2: the named version (and its strictness) is "
+              "ignored for that input form", file=pf.module.relpath, line=pf.node.lineno, function=pf.qualname,
+              expected="return dict_to_stix2(<content>, ..., version) on every path", found=[short(r, 60) for r in rets_p])
+    # the stores hand RAW content to _add, which parses each object under the named version; content parsed beforehand (as a
+    # whole, e.g. as a bundle) reaches _add as finished objects and is stored as it is
+    lf = prog.cls("stix2.datastore.memory::MemorySource").methods["load_from_file"]
+    gl = cfg_of(lf)
+    rdl = ReachingDefs(gl, lf.all_param_names())
+    for c in [c for c in body_walk(lf.node) if isinstance(c, ast.Call) and call_simple_name(c) == "_add" and len(c.args) > 1]:
+        st_ = c
+        while not isinstance(st_, ast.stmt):
+            st_ = st_.parent
+        a1 = c.args[1]
+        vals = [v for _d, v in rdl.reaching(gl.node_of(st_), a1.id)] if isinstance(a1, ast.Name) else [a1]
+        okr = bool(vals) and all(isinstance(v, ast.Call) and norm(v.func) in ("json.load", "json.loads") for v in vals)
+        run.check(okr, R, key(lf.module.relpath, lf.qualname, "raw-content-reaches-_add"),
+                  "what load_from_file hands to _add is not (only) the decoded file content: content parsed beforehand is stored as "
+                  "the objects that parse produced -- for a bundle, members detected one by one whatever version was named",
+                  file=lf.module.relpath, line=c.lineno, function=lf.qualname, expected="_add(self, json.load(f), ...)",
+                  found=[short(v, 60) if isinstance(v, ast.AST) else str(v) for v in vals])
     # frozen exception (reason): STIXObjectProperty.clean -> parse passes no version; bundle members are detected
     # individually and a 2.0 bundle refuses 2.1 members explicitly.
     so = prog.cls("stix2.properties::STIXObjectProperty").methods["clean"]
